@@ -327,6 +327,27 @@ theorem next_read_not_before (T0 i : Nat) (b : List Obs) (s2 s3 s : State) (hq :
   · have := hq3.2.2 d hd
     rw [hiv] at this; omega
 
+/-- **Not twice.**  Two reads of the same value without a reconnection / restart / re-registration in between
+are at least one interval apart — in particular the read owed for a (re)connection is issued once, not twice. -/
+theorem reads_at_least_one_interval_apart (cfg : List (Kind × Nat)) (a b : List Obs) (i : Nat)
+    (s1 s : State) (_ha : Accepted cfg a s1) (hb : ∀ e ∈ b, isRestart i e = false)
+    (h : run? step? s1 ([.read i] ++ b ++ [.read i]) = some s) :
+    ∃ s3, run? step? s1 ([.read i] ++ b) = some s3 ∧ s1.now + (s1.trs i).interval ≤ s3.now := by
+  obtain ⟨s3, h3, h4⟩ := run?_append_some step? h
+  obtain ⟨s2, h2, h3'⟩ := run?_append_some step? h3
+  rw [run?_singleton] at h2 h4
+  refine ⟨s3, h3, ?_⟩
+  obtain ⟨_, hiv, ⟨hnow, hsame⟩, _⟩ := step_tr h2 i
+  have hn : s2.now = s1.now := hsame (by intro t ht; simp at ht)
+  have hread : ∃ b', (s2.trs i).phase = .reading b' := read_phase h2
+  obtain ⟨b', hb'⟩ := hread
+  have hq : QuietSince s1.now i s2 := by
+    refine ⟨by omega, ?_, ?_⟩
+    · intro b'' hb''; rw [hb'] at hb''; simp at hb''
+    · intro d hd; rw [hb'] at hd; simp at hd
+  have := next_read_not_before s1.now i b s2 s3 s hq hb h3' h4
+  rw [hiv] at this; exact this
+
 /-- **expire.**  After a state update of an `expire` tracker (a telegram for the value processed while
 it is tracked), the next read of that value — short of a reconnection/restart/re-registration — comes
 no earlier than a full interval later: it reads again only after a full interval without update. -/
